@@ -360,15 +360,21 @@ where
                 .unknown_source()
         })?;
 
-        if max_cycles < cycles {
-            return Err(ScriptError::ExceededMaximumCycles(max_cycles)
-                .source(current_group)
-                .into());
-        }
+        // The suspended group has already consumed cycles inside the snapshot, they
+        // belong to the budget just like the cycles of the completed groups.
+        let consumed_in_group = snap
+            .state
+            .as_ref()
+            .map_or(0, |state| state.total_cycles);
+        let remain_cycles = cycles
+            .checked_add(consumed_in_group)
+            .and_then(|spent| max_cycles.checked_sub(spent))
+            .ok_or_else(|| {
+                ScriptError::ExceededMaximumCycles(max_cycles).source(current_group)
+            })?;
 
         // continue snapshot current script
-        // max_cycles - cycles checked
-        match self.verify_group_with_chunk(current_group, max_cycles - cycles, &snap.state) {
+        match self.verify_group_with_chunk(current_group, remain_cycles, &snap.state) {
             Ok(ChunkState::Completed(used_cycles, _consumed_cycles)) => {
                 cycles = wrapping_cycles_add(cycles, used_cycles, current_group)?;
             }
